@@ -87,7 +87,7 @@ fn dump_view(rect: Option<Rect>, val: &dyn Fn(u32, u32) -> usize) -> String {
             gv.push(if inside(a, b) { val(a, b).to_string() } else { "-".into() });
         }
     }
-    let rel = [(0u64, 0u64), (h.saturating_sub(1), w.saturating_sub(1)), (h, 0), (0, w)];
+    let rel = [(0u64, 0u64), (h.saturating_sub(1), w.saturating_sub(1)), (h, 0), (0, w), (u64::MAX, 0), (0, u64::MAX), (1 << 63, 1), (1 << 62, 3)];
     let g: Vec<String> = rel
         .iter()
         .map(|(i, j)| if *i < h && *j < w { val(s.0 + *i as u32, s.1 + *j as u32).to_string() } else { "-".into() })
@@ -133,8 +133,8 @@ fn dump_impl(r: &Range<usize>) -> String {
             gv.push(r.get_value((a, b)).map(|v| v.to_string()).unwrap_or("-".into()));
         }
     }
-    let rel = [(0usize, 0usize), (h.saturating_sub(1), w.saturating_sub(1)), (h, 0), (0, w)];
-    let g: Vec<String> = rel.iter().map(|p| r.get(*p).map(|v| v.to_string()).unwrap_or("-".into())).collect();
+    let rel = [(0usize, 0usize), (h.saturating_sub(1), w.saturating_sub(1)), (h, 0), (0, w), (usize::MAX, 0), (0, usize::MAX), (1 << 63, 1), (1 << 62, 3)];
+    let g: Vec<String> = rel.iter().map(|p| guarded(|| r.get(*p).map(|v| v.to_string()).unwrap_or("-".into())).unwrap_or("panic".into())).collect();
     let ix: Vec<String> = rel.iter().map(|p| guarded(|| r[*p]).map(|v| v.to_string()).unwrap_or("!".into())).collect();
     let ir: Vec<String> = [0usize, h.saturating_sub(1), h, h + 3]
         .iter()
@@ -526,17 +526,25 @@ fn iter_impl(r: &Range<usize>, pat: &str) -> String {
     let mut u = r.used_cells();
     let mut w = r.rows();
     let (mut tc, mut tu, mut tw) = (vec![], vec![], vec![]);
-    for d in pat.chars() {
-        let front = d == 'f';
-        tc.push(item(d, if front { c.next() } else { c.next_back() }));
-        tu.push(item(d, if front { u.next() } else { u.next_back() }));
-        let row = if front { w.next() } else { w.next_back() };
+    for ch in pat.chars() {
+        let (front, k) = match ch {
+            'f' => (true, 0),
+            'b' => (false, 0),
+            'n' => (true, 1),
+            'N' => (true, 2),
+            'm' => (false, 1),
+            _ => (false, 2),
+        };
+        let d = if front { 'f' } else { 'b' };
+        tc.push(item(d, if front { c.nth(k) } else { c.nth_back(k) }));
+        tu.push(item(d, if front { u.nth(k) } else { u.nth_back(k) }));
+        let row = if front { w.nth(k) } else { w.nth_back(k) };
         tw.push(match row {
             Some(row) => format!("{d}[{}]", row.iter().map(|v| v.to_string()).collect::<Vec<_>>().join(".")),
             None => format!("{d}-"),
         });
     }
-    format!("C={} L={} U={} R={}", tc.join(","), c.len(), tu.join(","), tw.join(","))
+    format!("C={} L={} U={} R={} LR={}", tc.join(","), c.len(), tu.join(","), tw.join(","), w.len())
 }
 
 /// the same text from the property as stated: the forward enumerations (checked against the oracle by the dump)
@@ -548,16 +556,29 @@ fn iter_spec(r: &Range<usize>, pat: &str) -> String {
     let mut w: VecDeque<String> =
         r.rows().map(|row| format!("[{}]", row.iter().map(|v| v.to_string()).collect::<Vec<_>>().join("."))).collect();
     let (mut tc, mut tu, mut tw) = (vec![], vec![], vec![]);
-    for d in pat.chars() {
+    for ch in pat.chars() {
+        let (front, k) = match ch {
+            'f' => (true, 0),
+            'b' => (false, 0),
+            'n' => (true, 1),
+            'N' => (true, 2),
+            'm' => (false, 1),
+            _ => (false, 2),
+        };
+        let d = if front { 'f' } else { 'b' };
+        // nth(k): k items dropped from that end, then one taken
         let take = |q: &mut VecDeque<String>| {
-            let o = if d == 'f' { q.pop_front() } else { q.pop_back() };
+            for _ in 0..k {
+                if front { q.pop_front(); } else { q.pop_back(); }
+            }
+            let o = if front { q.pop_front() } else { q.pop_back() };
             format!("{d}{}", o.unwrap_or("-".into()))
         };
         tc.push(take(&mut c));
         tu.push(take(&mut u));
         tw.push(take(&mut w));
     }
-    format!("C={} L={} U={} R={}", tc.join(","), c.len(), tu.join(","), tw.join(","))
+    format!("C={} L={} U={} R={} LR={}", tc.join(","), c.len(), tu.join(","), tw.join(","), w.len())
 }
 
 fn gen_pattern(rng: &mut Rng, cells: usize) -> String {
@@ -570,7 +591,14 @@ fn gen_pattern(rng: &mut Rng, cells: usize) -> String {
                 1 => rng.chance(1, 6),
                 _ => rng.chance(1, 2),
             };
-            if f { 'f' } else { 'b' }
+            match (f, rng.below(8)) {
+                (true, 0) => 'n',
+                (true, 1) => 'N',
+                (false, 0) => 'm',
+                (false, 1) => 'M',
+                (true, _) => 'f',
+                (false, _) => 'b',
+            }
         })
         .collect()
 }
@@ -591,8 +619,8 @@ fn run_iter(ops: &[Op], pat: &str, drv: &mut Driver) -> Vec<(String, String, Str
     let mut fails = vec![];
     let part = |s: &str, k: usize| s.split(' ').nth(k).unwrap_or("").to_string();
     if imp != spec {
-        let which = (0..4).find(|k| part(&imp, *k) != part(&spec, *k)).unwrap_or(0);
-        let name = ["cells", "cells-len", "used_cells", "rows"][which];
+        let which = (0..5).find(|k| part(&imp, *k) != part(&spec, *k)).unwrap_or(0);
+        let name = ["cells", "cells-len", "used_cells", "rows", "rows-len"][which.min(4)];
         fails.push(("impl_vs_spec".to_string(), format!("iter:{name}:mixed-ends"), imp.clone(), model.clone(), spec.clone()));
     }
     if imp != model {
@@ -817,6 +845,88 @@ fn run_large(lops: &[LOp]) -> Option<(String, String)> {
     None
 }
 
+// ---------------------------------------------------------------------------------------------------------
+// element types other than integers: what counts as "non-default" for used_cells() is T::default() and nothing
+// else (an empty STRING is a value). impl vs the property as stated, for Range<Data>, Range<DataRef>, Range<String>.
+
+fn typed_stage(rng: &mut Rng, n: u64, rep: &mut Report) {
+    use calamine::{CellErrorType, Data, DataRef};
+    // (wire, is the value the type's default)
+    let pool: [(&str, bool); 9] = [("E", true), ("S", false), ("Sa", false), ("H", false), ("Ha", false), ("I0", false), ("F0", false), ("B0", false), ("X", false)];
+    let mk_ref = |w: &str| -> DataRef<'static> {
+        match w {
+            "E" => DataRef::Empty,
+            "S" => DataRef::String(String::new()),
+            "Sa" => DataRef::String("a".into()),
+            "H" => DataRef::SharedString(""),
+            "Ha" => DataRef::SharedString("a"),
+            "I0" => DataRef::Int(0),
+            "F0" => DataRef::Float(0.0),
+            "B0" => DataRef::Bool(false),
+            _ => DataRef::Error(CellErrorType::Div0),
+        }
+    };
+    for case in 0..n {
+        let h = rng.range(1, 3) as u32;
+        let w = rng.range(1, 4) as u32;
+        let (r0, c0) = (rng.below(3) as u32, rng.below(3) as u32);
+        let k = rng.below((h * w) as u64 + 1);
+        let mut cells: Vec<(u32, u32, &str, bool)> = (0..k)
+            .map(|_| {
+                let (wire, d) = *rng.pick(&pool);
+                (r0 + rng.below(h as u64) as u32, c0 + rng.below(w as u64) as u32, wire, d)
+            })
+            .collect();
+        cells.sort_by_key(|c| c.0);
+        let text = format!("typed:{}", cells.iter().map(|c| format!("{},{},{}", c.0, c.1, c.2)).collect::<Vec<_>>().join(";"));
+        rep.case(&text, cells.iter().any(|c| c.2 == "H" || c.2 == "S"));
+        rep.count("typed.cases");
+        if cells.is_empty() {
+            continue;
+        }
+        // expected: last writer wins per position; used = the positions whose last value is not the default
+        let mut last: std::collections::BTreeMap<(u32, u32), (&str, bool)> = Default::default();
+        for c in &cells {
+            last.insert((c.0, c.1), (c.2, c.3));
+        }
+        let (sr, sc) = (cells.iter().map(|c| c.0).min().unwrap(), cells.iter().map(|c| c.1).min().unwrap());
+        let want: Vec<(usize, usize, String)> =
+            last.iter().filter(|(_, v)| !v.1).map(|(p, v)| ((p.0 - sr) as usize, (p.1 - sc) as usize, v.0.to_string())).collect();
+        let name_ref = |d: &DataRef| pool.iter().map(|p| p.0).find(|w| mk_ref(w) == *d).unwrap_or("?").to_string();
+        let check = |label: &str, got: Vec<(usize, usize, String)>, n_cells: usize, rep: &mut Report| {
+            if got != want {
+                rep.fail("impl_vs_spec", &format!("typed:{label}:used_cells"), &text, &format!("{got:?}"), "(the Lean model is generic in the element type; the driver runs it on integers)", &format!("{want:?}"));
+            }
+            if n_cells < want.len() {
+                rep.fail("impl_vs_spec", &format!("typed:{label}:cells-fewer-than-used"), &text, &n_cells.to_string(), "", &want.len().to_string());
+            }
+        };
+        let _ = case;
+        // Range<DataRef>
+        let rr = Range::from_sparse(cells.iter().map(|c| Cell::new((c.0, c.1), mk_ref(c.2))).collect());
+        check("DataRef", rr.used_cells().map(|(i, j, v)| (i, j, name_ref(v))).collect(), rr.cells().count(), rep);
+        let back: Vec<(usize, usize, String)> = { let mut v: Vec<_> = rr.used_cells().rev().map(|(i, j, v)| (i, j, name_ref(v))).collect(); v.reverse(); v };
+        check("DataRef-rev", back, rr.cells().count(), rep);
+        // Range<Data>: SharedString becomes String (same emptiness), so the wires map S/H -> S, Sa/Ha -> Sa
+        let owned_name = |w: &str| match w { "H" => "S".to_string(), "Ha" => "Sa".to_string(), x => x.to_string() };
+        let rd: Range<Data> = Range::from_sparse(cells.iter().map(|c| Cell::new((c.0, c.1), Data::from(mk_ref(c.2)))).collect());
+        let got: Vec<(usize, usize, String)> = rd
+            .used_cells()
+            .map(|(i, j, v)| (i, j, pool.iter().map(|p| p.0).find(|w| Data::from(mk_ref(w)) == *v && owned_name(w) == *w).unwrap_or("?").to_string()))
+            .collect();
+        let want_owned: Vec<(usize, usize, String)> = want.iter().map(|(i, j, w)| (*i, *j, owned_name(w))).collect();
+        if got != want_owned {
+            rep.fail("impl_vs_spec", "typed:Data:used_cells", &text, &format!("{got:?}"), "", &format!("{want_owned:?}"));
+        }
+        // Range<String>: default is the empty string
+        let rs: Range<String> = Range::from_sparse(cells.iter().map(|c| Cell::new((c.0, c.1), if c.3 { String::new() } else { c.2.to_string() })).collect());
+        let got: Vec<(usize, usize, String)> = rs.used_cells().map(|(i, j, v)| (i, j, v.clone())).collect();
+        if got != want {
+            rep.fail("impl_vs_spec", "typed:String:used_cells", &text, &format!("{got:?}"), "", &format!("{want:?}"));
+        }
+    }
+}
+
 fn shrink(ops: Vec<Op>, kind: &str, sig: &str, drv: &mut Driver) -> Vec<Op> {
     let fails = |o: &[Op], drv: &mut Driver| run_history(o, drv).fails.iter().any(|f| f.0 == kind && f.1 == sig);
     let mut cur = ops;
@@ -871,10 +981,12 @@ fn main() {
          with repeated / dropped positions) after each op the full observable state \
          (start,end,size,rows,cells,used_cells,get_value/get/Index probes, row indexing range[i], headers()) is compared impl vs Lean model vs \
          independent sparse-map oracle; on the final state of every history the three iterators are consumed from \
-         BOTH ends by a random next/next_back pattern (impl vs Lean iterator model vs a double-ended queue over the \
+         BOTH ends by a random next / next_back / nth / nth_back pattern (with len() of Cells and Rows) (impl vs Lean iterator model vs a double-ended queue over the \
          forward enumeration); plus LARGE rectangles (2^17 .. 2^18.3 cells quick, up to 2^21 thorough; new+fill or \
          dense from_sparse with repeats, then set_value past the end by less/more than the width, windows with a \
-         different first column) impl vs oracle only, structurally; non-trivial = history of >=2 ops containing a \
+         different first column) impl vs oracle only, structurally; plus small Range<DataRef> / Range<Data> / Range<String> built from typed cells \
+         (Empty, empty and non-empty String / SharedString, Int 0, Float 0, Bool false, Error): used_cells() = the cells \
+         whose last value is not T::default() — an empty string is a value; non-trivial = history of >=2 ops containing a \
          growing set_value or a range over a non-empty source, or any large history; distinct by the history text",
     );
     let mut histories: Vec<Vec<Op>> = vec![];
@@ -954,7 +1066,7 @@ fn main() {
     for (pat, ops) in iters {
         let fails = run_iter(&ops, &pat, &mut drv);
         let text = format!("iter:{pat}|{}", ops.iter().map(|o| o.wire()).collect::<Vec<_>>().join(";"));
-        let mixed = pat.contains('f') && pat.contains('b');
+        let mixed = pat.chars().any(|c| "fnN".contains(c)) && pat.chars().any(|c| "bmM".contains(c));
         rep.case(&text, mixed);
         rep.count(if mixed { "iter.mixed-ends" } else { "iter.one-end" });
         for (kind, sig, i, m, e) in fails {
@@ -1007,6 +1119,9 @@ fn main() {
             rep.fail("impl_vs_spec", &sig, &stext, &swhat, "(the Lean model is not run on large rectangles)", "the oracle's rectangle and sparse map");
         }
     }
+    if args.replay.is_none() {
+        typed_stage(&mut rng, args.count(1500, 150_000), &mut rep);
+    }
     rep.add("driver_requests", drv.requests);
     rep.write(&args.out);
 }
@@ -1016,6 +1131,9 @@ fn corpus_iter() -> Vec<&'static str> {
         "fbbffb|N,3,4,4,5;S,3,4,1;S,4,5,4",
         "bfbfbfbf|N,0,0,1,2;S,0,0,1;S,1,2,5;S,0,2,7",
         "fb|E",
+        // a row taken from the back, then an overshooting nth from the front
+        "bn|N,0,0,1,2;S,0,0,1;S,1,2,5",
+        "mN|N,0,0,3,1;S,2,1,7",
         "bbbb|F,2,5,1,2,3,2,3,5,3",
     ]
 }
